@@ -48,10 +48,12 @@ def specUpdate (s : S) (l : Line) : S × List Out :=
       | .at t => ({ s with latest := setMapping s.latest ⟨l.name, a, some t⟩ }, if known then [] else [.added l.name])
       | .never => ({ s with latest := setMapping s.latest ⟨l.name, a, none⟩ }, if known then [] else [.added l.name])
 
-/-- every step ends by dropping what has expired by then -/
+/-- every step ends by dropping what has expired by then — except a line taken in without the clock getting a turn
+(`raw`): what it announces is dropped, if it is already over, at the next turn, unless a later line for the name replaced it -/
 def step (s : S) : In → S × List Out
   | .advance dt => expire { s with now := s.now + dt }
   | .line l => ((expire (specUpdate s l).1).1, (specUpdate s l).2 ++ (expire (specUpdate s l).1).2)
+  | .raw l => specUpdate s l
 
 def find (s : S) : Key → Option (Nat × Nat)
   | .name n => (s.latest.find? (·.name = n)).map fun m => (m.name, m.ip)
